@@ -447,7 +447,7 @@ class FuncAnalysis:
                 del env[name]
 
     def run(self):
-        env = {}
+        env = {p: Pub('argument ' + p) for p in self.params if 'integral' in p}
         self.block(self.fn.body, env)
 
 
@@ -587,12 +587,17 @@ def emit(sites, outdir=None):
         ob += ('Theorem modelled_%s : map s_rule (filter (fun s => String.eqb (s_key s) %s) rules) = [%s].\n'
                'Proof. vm_compute. reflexivity. Qed.\n' % (
                    key.replace(':', '_').replace('.', '_').replace('#', '_'), qs(key), const))
-    ob += ('\n(* a rule that sets the flag of a result computed from a list consults ALL elements of that list *)\n'
-           'Theorem rule_consults_all : forallb covers_all_elements (filter is_setting_site rules) = true.\n'
-           'Proof. vm_compute. reflexivity. Qed.\n')
     with open(os.path.join(outdir, 'FlagOblig.v'), 'w') as f:
         f.write(ob)
-    return os.path.join(outdir, 'FlagRules.v'), os.path.join(outdir, 'FlagOblig.v')
+    cv = ('(* GENERATED obligation: list coverage *)\n'
+          'From Coq Require Import String List Bool ZArith.\nRequire Import MPyC.Fxp MPyCGen.FlagRules.\n'
+          'Import ListNotations.\n\n'
+          '(* a rule that sets the flag of a result computed from a list consults ALL elements of that list *)\n'
+          'Theorem rule_consults_all : forallb covers_all_elements (filter is_setting_site rules) = true.\n'
+          'Proof. vm_compute. reflexivity. Qed.\n')
+    with open(os.path.join(outdir, 'FlagCover.v'), 'w') as f:
+        f.write(cv)
+    return [os.path.join(outdir, n) for n in ('FlagRules.v', 'FlagOblig.v', 'FlagCover.v')]
 
 
 if __name__ == '__main__':
